@@ -360,8 +360,9 @@ class IndexedSet(MutableSet):
         "difference_update(*others) -> discard self.intersection(*others)"
         if self in others:
             self.clear()
-        for val in self.intersection(*others):
-            self.discard(val)
+        for other in others:
+            for val in self.intersection(other):
+                self.discard(val)
 
     def symmetric_difference_update(self, other):  # note singular 'other'
         "symmetric_difference_update(other) -> in-place XOR with other"
